@@ -9,6 +9,8 @@ if os.environ.get("VERIF_REPO"):
 
 
 def main():
+    import logging
+    logging.disable(logging.CRITICAL)      # the repository logs errors for documented, handled situations
     ap = argparse.ArgumentParser()
     ap.add_argument("prop")
     ap.add_argument("--tier", default=os.environ.get("VERIF_TIER", "quick"), choices=["quick", "thorough"])
